@@ -81,6 +81,22 @@ pub open spec fn pst_commit_one(ck: &CommitterKey, p: &LabeledMv, c: &LabeledCom
     && (p.hiding_bound is None ==> st.blinding_polynomial.terms@.len() == 0)
 }
 
+// ---- trim: the parameters and the operations on the term-indexed table ----
+pub struct UniversalParams { pub powers_of_g: TermTable, pub gamma_g: G1Affine, pub powers_of_gamma_g: Vec<Vec<G1Affine>>, pub h: G2Affine, pub beta_h: Vec<G2Affine>, pub prepared_h: G2Prepared, pub prepared_beta_h: Vec<G2Prepared>, pub num_vars: usize, pub max_degree: usize }
+pub struct VerifierKey { pub g: G1Affine, pub gamma_g: G1Affine, pub h: G2Affine, pub beta_h: Vec<G2Affine>, pub prepared_h: G2Prepared, pub prepared_beta_h: Vec<G2Prepared>, pub num_vars: usize, pub supported_degree: usize, pub max_degree: usize }
+pub uninterp spec fn pst_has(t: &TermTable, m: Seq<(usize, usize)>) -> bool;      // the table has an entry for monomial m
+// `t.iter().filter(|(k, _)| keep(k)).map(|(k, v)| (k.clone(), v.clone())).collect()`: the entries whose monomial passes the filter, unchanged
+#[verifier::external_body]
+pub fn table_filter<F: Fn(&Term) -> bool>(t: &TermTable, keep: F, Ghost(pred): Ghost<spec_fn(Seq<(usize, usize)>) -> bool>) -> (r: TermTable)
+    requires forall|k: &Term| #[trigger] keep.requires((k,)), forall|k: &Term, b: bool| #[trigger] keep.ensures((k,), b) ==> b == pred(k.v@)
+    ensures forall|m: Seq<(usize, usize)>| #[trigger] pst_has(&r, m) == (pst_has(t, m) && pred(m)), forall|m: Seq<(usize, usize)>| #[trigger] pst_has(&r, m) ==> pst_key(&r, m) == pst_key(t, m)
+{ unimplemented!() }
+#[verifier::external_body] pub fn table_index(t: &TermTable, term: &Term) -> (r: G1Affine) ensures pst_has(t, term.v@), r@ == pst_key(t, term.v@) { unimplemented!() }   // `t[&term]`: a missing monomial aborts
+impl Term { #[verifier::external_body] pub fn new(v: Vec<(usize, usize)>) -> (r: Term) ensures v@.len() == 0 ==> r.v@ == Seq::<(usize, usize)>::empty() { unimplemented!() } }      // SparseTerm::new (normal form; the empty list stays empty)
+#[verifier::external_body] pub fn vec_prefix_incl(e: &Vec<G1Affine>, k: usize) -> (r: Vec<G1Affine>) requires k < e@.len() ensures r@ == e@.subrange(0, k + 1) { unimplemented!() }    // e[..=k].to_vec()
+#[verifier::external_body] pub fn vec_g2_clone(v: &Vec<G2Affine>) -> (r: Vec<G2Affine>) ensures r@ == v@ { unimplemented!() }
+#[verifier::external_body] pub fn g2p_clone(v: &G2Prepared) -> (r: G2Prepared) ensures r == *v { unimplemented!() }
+#[verifier::external_body] pub fn vec_g2p_clone(v: &Vec<G2Prepared>) -> (r: Vec<G2Prepared>) ensures r@ == v@ { unimplemented!() }
 pub struct MarlinPST13;
 impl MarlinPST13 {
 //@fn id=pst13.check_degrees_and_bounds file=poly-commit/src/marlin/marlin_pst13_pc/mod.rs scope="impl<E: Pairing, P: DenseMVPolynomial<E::ScalarField>> MarlinPST13<E, P>" name=check_degrees_and_bounds props=C17
@@ -174,5 +190,30 @@ impl MarlinPST13 {
                                      dot(gkeys_of(ck, st.blinding_polynomial.terms@), coeffs_of(st.blinding_polynomial.terms@), st.blinding_polynomial.terms@.len())));
                 assert(pst_commit_one(ck, polynomials@[k], &commitments@[k], &randomness@[k])) by { reveal(pst_commit_one); }
             }
+//@end
+//@fn id=pst13.trim file=poly-commit/src/marlin/marlin_pst13_pc/mod.rs scope="impl<E, P> PolynomialCommitment<E::ScalarField, P> for MarlinPST13<E, P>" name=trim props=C09,C15,C17
+    fn trim(pp: &UniversalParams, supported_degree: usize, _supported_hiding_bound: usize, _enforced_degree_bounds: Option<&[usize]>) -> (res: Result<(CommitterKey, VerifierKey), Error>)
+    requires
+        forall|v: int| 0 <= v < pp.powers_of_gamma_g@.len() ==> (#[trigger] pp.powers_of_gamma_g@[v])@.len() > pp.max_degree,    // setup publishes max_degree + 2 gamma powers per variable
+    ensures
+        (res is Err) == (supported_degree > pp.max_degree),   // name=pst13.trim.refused_iff_degree_beyond_parameters props=C17,C09
+        // the committer key keeps EXACTLY the monomials of total degree <= supported_degree, each with the parameters' group element
+        res is Ok ==> (forall|m: Seq<(usize, usize)>| #[trigger] pst_has(&res->Ok_0.0.powers_of_g, m) == (pst_has(&pp.powers_of_g, m) && tdeg(m, m.len()) <= supported_degree)),   // name=pst13.trim.keeps_exactly_the_monomials_up_to_the_supported_degree props=C15,C09
+        res is Ok ==> (forall|m: Seq<(usize, usize)>| #[trigger] pst_has(&res->Ok_0.0.powers_of_g, m) ==> pst_key(&res->Ok_0.0.powers_of_g, m) == pst_key(&pp.powers_of_g, m)),   // name=pst13.trim.kept_monomials_keep_their_key_element props=C15,C09
+        res is Ok ==> res->Ok_0.0.powers_of_gamma_g@.len() == pp.powers_of_gamma_g@.len()
+            && (forall|v: int| 0 <= v < pp.powers_of_gamma_g@.len() ==> (#[trigger] res->Ok_0.0.powers_of_gamma_g@[v])@ == pp.powers_of_gamma_g@[v]@.subrange(0, supported_degree + 1)),   // name=pst13.trim.gamma_powers_prefix_per_variable props=C09
+        res is Ok ==> res->Ok_0.0.gamma_g == pp.gamma_g && res->Ok_0.0.num_vars == pp.num_vars && res->Ok_0.0.supported_degree == supported_degree && res->Ok_0.0.max_degree == pp.max_degree
+            && res->Ok_0.1.g@ == pst_key(&pp.powers_of_g, Seq::empty()) && res->Ok_0.1.gamma_g == pp.gamma_g && res->Ok_0.1.h == pp.h && res->Ok_0.1.beta_h@ == pp.beta_h@
+            && res->Ok_0.1.prepared_h == pp.prepared_h && res->Ok_0.1.prepared_beta_h@ == pp.prepared_beta_h@
+            && res->Ok_0.1.num_vars == pp.num_vars && res->Ok_0.1.supported_degree == supported_degree && res->Ok_0.1.max_degree == pp.max_degree,   // name=pst13.trim.generators_and_degrees_agree props=C09
+//@body
+//@rw 1 /pp\.max_degree\(\)/ => pp.max_degree
+//@rw 1 /(?s)let powers_of_g = pp\s*\.powers_of_g\s*\.iter\(\)\s*\.filter\(\|\(k, _\)\| (.*?)\)\s*\.map\(\|\(k, v\)\| \(k\.clone\(\), v\.clone\(\)\)\)\s*\.collect\(\);/ => let powers_of_g: TermTable = table_filter(&pp.powers_of_g, |k: &Term| -> (b: bool) ensures b == (tdeg(k.v@, k.v@.len()) <= supported_degree) { \1 }, Ghost(|m: Seq<(usize, usize)>| tdeg(m, m.len()) <= supported_degree));
+//@rw 1 /(?s)let powers_of_gamma_g = pp\s*\.powers_of_gamma_g\s*\.iter\(\)\s*\.map\(\|e\| (.*?)\)\s*\.collect\(\);/ => let powers_of_gamma_g: Vec<Vec<G1Affine>> = pp.powers_of_gamma_g.iter().map(|e: &Vec<G1Affine>| -> (o: Vec<G1Affine>) requires e@.len() > supported_degree ensures o@ == e@.subrange(0, supported_degree + 1) { \1 }).collect();
+//@rw 1 /e\[\.\.=supported_degree\]\.to_vec\(\)/ => vec_prefix_incl(e, supported_degree)
+//@rw 1 /pp\.powers_of_g\[&P::Term::new\(vec!\[\]\)\]/ => table_index(&pp.powers_of_g, &Term::new(Vec::new()))
+//@rw 1 /pp\.beta_h\.clone\(\)/ => vec_g2_clone(&pp.beta_h)
+//@rw 1 /pp\.prepared_h\.clone\(\)/ => g2p_clone(&pp.prepared_h)
+//@rw 1 /pp\.prepared_beta_h\.clone\(\)/ => vec_g2p_clone(&pp.prepared_beta_h)
 //@end
 }
